@@ -32,6 +32,7 @@ TraceInit ==
     /\ cfgs = FixCfgs(Traces[tid].init.cfgs)
     /\ LET d == DefaultCfg(S, <<>>) IN \A n \in Names : Built(n) => cfgs[n] = d.cfg
     /\ ev = [op |-> "Init"]
+    /\ steps = 0
 
 Ev == Traces[tid].events[l]
 
@@ -47,6 +48,7 @@ Step(e) ==
 TraceNext ==
     /\ l <= Len(Traces[tid].events)
     /\ Step(Ev)
+    /\ steps' = steps
     /\ l' = l + 1
     /\ UNCHANGED tid
 
